@@ -316,9 +316,7 @@ class Scenario:
         for st in self.procs:
             st.thread = threading.Thread(target=self._worker, args=(st,), daemon=True, name=f"jitreq{st.pid}")
             st.thread.start()
-            self._wait(st)  # one at a time: deterministic
-            if st.pending != "lock":
-                raise SchedulerError(f"request {st.pid} did not reach the lock gate: {st.pending} {st.outcome}")
+            self._wait(st)  # one at a time: deterministic (normally blocked at the `lock` gate now)
 
     def _wait(self, st):
         with self.cv:
@@ -353,7 +351,9 @@ class Scenario:
             self.cv.notify_all()
         self._wait(st)
         if self._last is None or self._last[0] != pid:
-            raise SchedulerError(f"request {pid} made no observable step (outcome {st.outcome})")
+            # the request ran on without passing a gate (the code no longer has the modelled shape):
+            # reported as a trace difference by `compare`, never as an infrastructure error
+            self._last = (pid, "silent", "-")
         e = self._last + self.globals_now()
         self.trace.append(e)
         if e[1] == "lock" and e[2] == "ok":
